@@ -12,9 +12,7 @@ from harness import core, scen, sdio, stackdrv as SDV, stateful
 LEVEL = ("Lean theorems c14_* (server view mirrors the requested set at idle, content of each Subscribe, refresh) for every "
          "event list + lock-step correspondence + server-view oracle")
 W = {"csub": 9, "life": 4}
-EGS = [C.Eventgroup(0x1111, 1, 1, 5, ("10.0.0.9", 4000), H.L4Protocols.UDP),
-       C.Eventgroup(0x1111, 1, 1, 6, ("fe80::9", 4001, 0, 0), H.L4Protocols.TCP),
-       C.Eventgroup(0x2222, 1, 1, 5, ("10.0.0.9", 4002), H.L4Protocols.UDP)]
+EGS = scen.CLIENT_EGS
 
 
 class Sc(scen.Scenario):
